@@ -790,6 +790,32 @@ def arith(op, *args, w=None):
                     if pos < w:
                         out.append(zeros(w - pos))
                     return concat(out)
+        # general sparse case: x has known-zero parts and every shifted copy lands in bits that are zero in all the other copies
+        for i in (0, 1):
+            c, x = args[i], args[1 - i]
+            if c.op == 'const' and x.op == 'concat' and 1 < bin(c.args[0]).count('1') <= 8:
+                occ = 0
+                pos = 0
+                for p in x.args:
+                    if not (p.op == 'const' and p.args[0] == 0):
+                        occ |= ((1 << p.w) - 1) << pos
+                    pos += p.w
+                bits = [k for k in range(w) if (c.args[0] >> k) & 1]
+                full = (1 << w) - 1
+                seen = 0
+                ok = True
+                for k in bits:
+                    m = (occ << k) & full
+                    if m & seen:
+                        ok = False
+                        break
+                    seen |= m
+                if ok:
+                    r = zeros(w)
+                    for k in bits:
+                        sh = concat([zeros(k), slice_(x, 0, w - k)]) if k else x
+                        r = or_(r, sh)
+                    return r
     if op == 'sub' and args[0] is args[1]:
         return zeros(w)
     return mk(op, args, w)
@@ -900,6 +926,20 @@ def make(op, args, w):
         return select(args[0], args[1], args[2])
     if op == 'sext':
         return sext(args[0], w)
+    if op == 'sextbits':
+        a = args[0]
+        if a.op == 'const':
+            return const(w, ((1 << w) - 1) if (a.args[0] >> (a.w - 1)) & 1 else 0)
+        return mk(op, args, w)
+    if op in ('shl', 'lshr', 'ashr') and len(args) == 2 and all(isinstance(a, T) and a.op == 'const' for a in args):
+        v, k = args[0].args[0], args[1].args[0]
+        if k < w:
+            if op == 'shl':
+                return const(w, (v << k) & ((1 << w) - 1))
+            if op == 'lshr':
+                return const(w, v >> k)
+            sv = v - (1 << w) if (v >> (w - 1)) & 1 else v
+            return const(w, (sv >> k) & ((1 << w) - 1))
     if op == 'fneg':
         return fneg(args[0])
     if op == 'fabs':
